@@ -185,6 +185,36 @@ def linked_input_case(args):
         sc.close()
 
 
+def symlinked_dir_input_case(args):
+    """an input whose path goes through a symbolic link to a directory and back up (current/../ref.txt with current ->
+    releases/v2): the operating system resolves it to releases/ref.txt, not to ./ref.txt; the in-placeholder, used from inside
+    the temp dir, must name that same file"""
+    seed, i = args
+    rng = random.Random(seed * 472882093 + i)
+    sp = t3.Spec(maxtasks=2, bufsize=128)
+    link, target = rng.choice([("current", "releases/v2"), ("latest", "data/2020/run7"), ("cur", "a/b")])
+    updir = os.path.dirname(target)
+    inp = "%s/../ref.txt" % link
+    s = sp.src("src", [inp])
+    sp.proc(t3.RawProc("reader", "cat {i:a} > {o:o}", ins=[("a", [(s, "out")])], outs=[("o", "read.out")]))
+    sc = t3.Scratch()
+    try:
+        sc.plant({"ref.txt": "UNRELATED\n", updir + "/ref.txt": "ACTUAL-INPUT\n", target + "/keep.txt": "x\n"})
+        os.symlink(target, os.path.join(sc.work, link))
+        impl = t3.run_impl(sc, sp, timeout=60)
+        problems = []
+        if impl["rc"] != 0 or not impl["returned"]:
+            problems.append("a task whose input path %r goes through a symbolic link to a directory fails (exit %s): %s" % (inp, impl["rc"], impl["stderr"][-200:]))
+        else:
+            got = t3.data_files(impl["fs"]).get("read.out")
+            if got != "ACTUAL-INPUT\n":
+                problems.append("the input %r is the file %s/ref.txt (the link %s points to %s); the in-placeholder resolved, from inside the temp dir, to a file holding %r" % (inp, updir, link, target, got))
+        return {"shape": "symlinked-dir-input", "out": "read.out", "in": inp, "extra": [], "rc": impl["rc"], "canonical": True, "ok": impl["rc"] == 0,
+                "problems": problems, "stderr": impl["stderr"][-200:], "spec": sp.text(), "bufsize": sp.bufsize}
+    finally:
+        sc.close()
+
+
 def run(rep, tier, seed):
     proved = vlib.prove(rep, MODULE, THEOREMS)
     ok, msg = vlib.build_ocaml()
@@ -202,6 +232,7 @@ def run(rep, tier, seed):
     # T3: real one-task workflows for each path shape
     cases = [(s, i, seed) for i, s in enumerate(SHAPES * (1 if tier == "quick" else 6) + NONCANON + ["extra-placeholder"])]
     results = t3.run_many(t3_case, cases)
+    results += t3.run_many(symlinked_dir_input_case, [(seed, i) for i in range(4 if tier == "quick" else 40)])
     results += t3.run_many(linked_input_case, [(seed, i) for i in range(6 if tier == "quick" else 60)])
     results += t3.run_many(concurrent_extras_case, [(seed, i) for i in range(10 if tier == "quick" else 120)])
     found = False
@@ -239,7 +270,7 @@ def run(rep, tier, seed):
         rep.violation("; ".join(what), {"kind": "correspondence", "theorem_or_correspondence": "PropC13 / T2 paths", "disagreements": rep.notes.get("disagreements", [])}, nofail=True)
     rep.cov["evaluations"] = len(paths) + len(results)
     rep.cov["distinct_nontrivial"] = len(set(paths)) + len({r["shape"] for r in results})
-    rep.cov["rule"] = "T2: every path of a grammar (prefix ./ ../ ../../ / x segments incl. '..'-like and place-holder-like ones, depth <= 3 or 4) plus random long paths through NewFileIP(..).TempPath/TempDir/FifoPath, the decode of FinalizePaths and splitAllPaths, against the Coq model; T3: one producer + one consumer workflow per output-path shape with random input location and additional files, checked against the property statement itself; a command that links its input into its working directory beside other additional files; 4-12 tasks finishing together (seeded delays at the hook points) that each leave an additional file in the same new sub-directory"
+    rep.cov["rule"] = "T2: every path of a grammar (prefix ./ ../ ../../ / x segments incl. '..'-like and place-holder-like ones, depth <= 3 or 4) plus random long paths through NewFileIP(..).TempPath/TempDir/FifoPath, the decode of FinalizePaths and splitAllPaths, against the Coq model; T3: one producer + one consumer workflow per output-path shape with random input location and additional files, checked against the property statement itself; an input path that goes through a symbolic link to a directory and back up; a command that links its input into its working directory beside other additional files; 4-12 tasks finishing together (seeded delays at the hook points) that each leave an additional file in the same new sub-directory"
     rep.cov["samples"] = [paths[5], paths[len(paths) // 2], {k: results[0][k] for k in ("shape", "in", "extra", "rc", "problems")}]
     rep.notes["input_distribution"] = {"grammar_paths": len(paths), "invalid_paths": sum(1 for x in impl if x == "INVALID"), "t3_shapes": len(SHAPES), "t3_runs": len(results),
                                        "t3_noncanonical": len(NONCANON)}
